@@ -216,6 +216,9 @@ func runC16(c *Ctx) Verdict {
 	var startErr error
 	var t0, t1 time.Time
 	var hist, listed []kapacitor.BatchQueries
+	var split []string
+	var splitAt time.Time
+	splitOK := false
 	var histErr, listErr error
 	res := c.World(cfg, func() {
 		d, err := harness.NewDaemon(harness.DaemonOpts{Influx: fi})
@@ -255,6 +258,24 @@ func runC16(c *Ctx) Verdict {
 		time.Sleep(half)
 		t1 = time.Now()
 		hist, histErr = et.BatchQueries(t0.UTC(), t1.UTC()) // as the recording API passes them: parsed from RFC3339, in UTC
+		if histErr == nil && len(hist) == 1 && len(hist[0].Queries) >= 2 {
+			// the same span cut in two at one of its own ticks: whatever side the tick on the cut belongs to, the two
+			// lists together must be the list of the whole span
+			if _, _, tr, err := c16Analyse(hist[0].Queries[len(hist[0].Queries)/2].String()); err == nil {
+				splitAt = tr.Max.Add(time.Nanosecond).Add(time.Duration(sc.OffsetS) * time.Second).UTC()
+				h1, err1 := et.BatchQueries(t0.UTC(), splitAt)
+				h2, err2 := et.BatchQueries(splitAt, t1.UTC())
+				if err1 == nil && err2 == nil && len(h1) == 1 && len(h2) == 1 {
+					for _, q := range h1[0].Queries {
+						split = append(split, q.String())
+					}
+					for _, q := range h2[0].Queries {
+						split = append(split, q.String())
+					}
+					splitOK = true
+				}
+			}
+		}
 		simrt.Fair()
 		done := simrt.Expect("StopTask", 3_000_000, time.Hour)
 		d.TM.StopTask("B")
@@ -427,6 +448,18 @@ func runC16(c *Ctx) Verdict {
 		c.Counters["obs.tz_live_queries"] += int64(len(fi.Queries))
 		if len(hist) == 1 {
 			c.Counters["obs.tz_listed_queries"] += int64(len(hist[0].Queries))
+		}
+	}
+	if splitOK && len(hist) == 1 {
+		var whole []string
+		for _, q := range hist[0].Queries {
+			whole = append(whole, q.String())
+		}
+		if strings.Join(whole, "\n") != strings.Join(split, "\n") {
+			v := Fail("history/not-additive", "BatchQueries(%s, %s) lists %d queries; cut at its own tick %s, BatchQueries(start, cut) and BatchQueries(cut, stop) together list %d:\n  whole: %s\n  parts: %s",
+				t0.UTC().Format("15:04:05.000"), t1.UTC().Format("15:04:05.000"), len(whole), splitAt.Format("15:04:05.000"), len(split), diffLines(whole, split), diffLines(split, whole))
+			v.Shape = shape
+			return v
 		}
 	}
 	if clean && len(hist) == 1 {
